@@ -286,6 +286,107 @@ TRIGGERS = {
             'a mapping hint with ignorable key and checked value '
             '(dict[object, str]): the first KEY is checked against the value '
             'hint'),
+ 'S5-C01': ('hinttreecode.py sanify_hint_child: the tree\'s "cacheable" flag is '
+            'recomputed from the parent hint instead of accumulated (last '
+            'child sanified decides)',
+            'a hint with a relative forward reference / typing.Self that is '
+            'not the last child sanified (tuple[\'Node\', int], dict[Self, '
+            'str]) used from a second scope after an equal hint was checked '
+            'from a first one: the second scope is checked against the first '
+            'scope\'s class'),
+ 'S5-C02': ('_valecorebinary.py: A | B code lost its outer parentheses',
+            'a disjunction of validators beside another validator or under '
+            'negation: "a or b and c" accepts what no path allows'),
+ 'S5-C03': ('hinttreeerror.py: the error-path child sanifier no longer '
+            'defaults the parent metadata (TypeVar bindings lost)',
+            'a user generic whose pseudo-superclass constrains classes by '
+            'its TypeVar (class ClassList(list[type[T]])) subscripted and '
+            'violated: the explanation finds nothing wrong -> '
+            'desynchronisation exception instead of the violation'),
+ 'S5-C04': ('calldatadecorfunc.py: the code object deciding the wrapper kind is '
+            'taken from the unwrapped (innermost) function',
+            'a functools.wraps closure whose kind differs from its wrappee '
+            '(async adapter around a plain function, blocking runner around '
+            'a coroutine function): wrong kind of wrapper, calls return '
+            'unstarted coroutines / raise return violations'),
+ 'S5-C05': ('clawastscopes.py: a nested scope inherits the beforelist of the '
+            'module scope instead of the enclosing scope',
+            'a decorator-hostile decorator bound inside a function (import '
+            'or assignment in the function body) and applied to a def nested '
+            'one level deeper: @beartype lands above it'),
+ 'S5-C06': ('confmain.py + decornontype.py: BeartypeConf gains __bool__ '
+            '(False for strategy O0)',
+            'beartype_package(sub, conf=O0) below an ancestor registered '
+            'with a checking configuration: "conf or inherited" lookups '
+            'answer the ancestor\'s configuration'),
+ 'S5-C07': ('fwdresolve.py: "is this name one of the enclosing scopes" became '
+            'a substring test on the dotted scope name',
+            'a stringified annotation whose text is a substring of the '
+            'qualified name of the decorated callable (def use_Row_now(r: '
+            '\'Row\')): resolved as a self-reference, exception at call'),
+ 'S5-C08': ('pep484585func.py: the "hint is object" guard removed from the '
+            'generator / async generator return validation',
+            'a generator or async generator function annotated -> object '
+            '(or \'object\'): decoration raises'),
+ 'S5-C09': ('codepep484604union.py: a union member\'s check embeds the pith '
+            'expression instead of the pith variable',
+            'a union with >= 2 container members below a container: every '
+            'member re-evaluates the item access (reads grow with the number '
+            'of members tried)'),
+ 'S5-C10': ('clawastassign.py: the check added after "owner.attr: T = value" '
+            're-evaluates the value expression when owner is not a bare name',
+            'hooked module, annotated assignment to x.y.attr / xs[0].attr '
+            'with a right-hand side that is not idempotent (next(it), a '
+            'factory): evaluated twice, one item lost'),
+ 'S5-C11': ('utilmaptest.py: the fast-path collision test of two scopes uses '
+            '!= instead of "is not"',
+            'a validator operand not equal to itself (IsEqual[nan]) reaching '
+            'one generated scope twice (two parameters, tuple[A, A]): the '
+            'private _BeartypeUtilMappingException leaks'),
+ 'S5-C12': ('datacodepep593.py: the always-true walrus test of the validator '
+            'pith compares with == instead of is',
+            'Annotated[object, V...] at a non-root position and an item not '
+            'equal to itself (nan): rejected before any validator runs'),
+ 'S5-C13': ('decornontype.py: the wrapper is built around '
+            'func_wrappee_wrappee instead of func_wrapper',
+            'a class member (or function) that is itself a functools.wraps '
+            'closure: __wrapped__, __doc__, __dict__ come from the innermost '
+            'function'),
+ 'S5-C14': ('redpep484ref.py: module-qualified ForwardRef objects marked '
+            'cacheable',
+            'ForwardRef(\'K\', module=m) checked, m.K rebound to a new class '
+            'of the same name (no decoration in between), same query again: '
+            'new instances rejected, old ones accepted'),
+ 'S5-C15': ('utilcachepoolinstance.py: release_instance() clears builtin '
+            'containers after handing them back to the pool, outside the lock',
+            'two threads and a switch between the pool append and the clear: '
+            'the next holder\'s scratch container is wiped mid-use (wrong '
+            'checker memoised)'),
+ 'S5-C16': ('clawastimport.py: is_pep557_fields turns class placement FIRST '
+            'into LAST (the cache marker does not know the option)',
+            'two interpreter runs with claw_decor_place_type=FIRST differing '
+            'in is_pep557_fields only, over a module with a decorated class: '
+            'the second run reuses the first one\'s bytecode'),
+ 'S5-C17': ('decortypepep557.py: conf.kwargs no longer copied before the '
+            'field-violation path writes violation_door_type into it',
+            'a configuration with is_pep557_fields=True used on a dataclass '
+            'and one rejected field assignment: conf.kwargs changes, the '
+            'round trip gives another object'),
+ 'S5-C18': ('_redrecurse.py: the recursion guard of a root hint starts at depth '
+            '0 instead of 1',
+            'a self-referential override whose value mentions its key below '
+            'a container ({int: int | list[int]}) and the key as root hint: '
+            'expanded twice ([[1]] accepted)'),
+ 'S5-C19': ('doorpep593.py: AnnotatedTypeHint._is_args_ignorable override '
+            'removed',
+            'a superhint Annotated[object, validator]: every subhint test '
+            'compares origins only and ignores the validator '
+            '(is_subhint(int, Annotated[object, Is[...]]) is True)'),
+ 'S5-C20': ('_infermain.py: the recursion guard applies to exact builtin '
+            'mutable containers only',
+            'a self-referential deque / OrderedDict / list subclass / '
+            'user-defined MutableSequence: RecursionError instead of the '
+            'recursion warning'),
  'S3-C11': ('pep593.py is_hint_pep593_beartype: the isinstance() test on the '
             'first metadatum moved out of the try/except',
             'Annotated[...] whose first metadatum raises when its __class__ is '
@@ -581,6 +682,58 @@ HISTORY = {
            'arbitrary subsets of the protocol methods. They found a genuine '
            'defect on the unchanged tree at once (emptiness decided by '
            'truthiness, fixed) - caught',
+ 'S5-C01': 'MISSED by C01 at first contact, CAUGHT by C14 (it is a history '
+           'defect); C01 now asks the same hint text from 2-3 successive '
+           'scopes that each have their own class behind the reference - '
+           'caught by both',
+ 'S5-C03': 'MISSED at first contact (no generic whose pseudo-superclass '
+           'wraps its TypeVar in type[...]); ClassList / ClassRegistry added '
+           'to the shared hint grammar - caught',
+ 'S5-C04': 'MISSED by C04 at first contact, CAUGHT by C08 (wraps closures '
+           'around another kind, round 2); C04\'s closure stream now has an '
+           'async adapter shape driven to completion - caught by both',
+ 'S5-C05': 'MISSED at first contact (hostile decorators were bound at module '
+           'scope only); bindings inside functions with defs nested below '
+           'them - caught',
+ 'S5-C06': 'MISSED at first contact (no registration with strategy O0); '
+           'configuration O - caught with 200+ hits',
+ 'S5-C07': 'MISSED at first contact (generated callables were named fn<i>, '
+           'g<i>: no name contained a referenced name); a quarter of the '
+           'cases name the callable or an enclosing function after what it '
+           'references - caught',
+ 'S5-C09': 'MISSED at first contact (union leaves had one container member); '
+           'union leaves with two / three container members - caught',
+ 'S5-C10': 'MISSED by C10 and C05 at first contact (C10 never went through '
+           'the import hook; C05\'s attribute targets had name owners). C10 '
+           'has a hooked-module stream now (annotated assignments to '
+           'plain / attribute / nested / subscripted targets with counting '
+           'right-hand sides, compared with the unhooked module); C05 has '
+           'non-name owners - caught by both',
+ 'S5-C11': 'MISSED at first contact (validator operands were ordinary '
+           'values); self-unequal operands and wrappers using a form twice '
+           'in one hint - caught',
+ 'S5-C14': 'MISSED at first contact (references were strings only); module-qualified ForwardRef '
+           'objects in the redefine family and its directed history - caught',
+ 'S5-C15': 'MISSED at first contact: the ownership sanitizer hands out '
+           'subclasses of dict / list / set, and the changed code tests the '
+           'exact class - the monitor hid the defect. The pooled spy classes '
+           'now report the builtin as __class__ (only type() tells them '
+           'apart) - caught on every run (release_instance touching a '
+           'released container)',
+ 'S5-C16': 'MISSED at first contact (only AST-shaping options varied between '
+           'runs, no dataclass in the module); a fourth, non-shaping '
+           'dimension (is_pep557_fields) in the configuration product, the '
+           'neighbour step flips it too, the module has a decorated '
+           'dataclass - caught',
+ 'S5-C17': 'MISSED at first contact (configurations were created and '
+           'compared, never used); every other configuration of a history '
+           'is used (functions, dataclasses in both decoration orders, '
+           'rejected fields, statement checks) and all are re-checked at the '
+           'end against their snapshot at creation - caught',
+ 'S5-C19': 'MISSED at first contact (hints containing ignorable children '
+           'were kept out of the pools because of Any); Annotated[object, '
+           'validator] is admitted (object is not Any; Annotated[Any, ...] '
+           'stays out: the property excludes Any) - caught',
  'S-C10': 'MISSED by the first C10 (one-shot spies had no __len__); added '
           'PySizedIterator/PySizedIterable spies to C09 and C10 - now caught',
 }
